@@ -16,7 +16,8 @@ from harness import common as C
 RULE = ('exposure: every bit depth 1..32, images with samples at 0, around full scale (cap-1, cap, cap+1 codes), far above '
         'full well and ADC range (up to 1e6 x), random gains / biases (either sign) / full-well capacities / dark currents / '
         'exposure times, frames in {1,3}, with and without PRNU / DCNU maps (image-shaped and flattened PRNU); sorted ramps '
-        'through saturation for monotonicity.  binning / tiling: 1-D..4-D integer-valued arrays with per-axis factors '
+        'through saturation for monotonicity.  binning / tiling: 1-D..4-D integer-valued float arrays and uint8/uint16/int8/int16/'
+        'bool/uint32/int32 arrays with values at the ends of the container (every block overflows it), frames returned by expose, per-axis factors '
         '(and scalar factors) dividing the shape, both modes.  Bayer: even shapes 2x2..12x18, both CFA layouts, random and '
         'constant mosaics, white-balance gains with and without saturation limiting.  A case is non-trivial unless the '
         'array has one sample / all factors are 1; distinct = distinct (item, input description) tuples')
@@ -142,9 +143,22 @@ def _factors(inp, ndim):
     return f, (tuple([f] * ndim) if isinstance(f, int) else tuple(f))
 
 
+def _typed(x, inp):
+    """array of the dtype named in the input (default float64)"""
+    return np.asarray(x).astype(np.dtype(inp.get('dtype', 'float64')))
+
+
+def _exact_total(a):
+    """exact total of an array as a Python number (no container overflow)"""
+    a = np.asarray(a)
+    if a.dtype.kind in 'biu':
+        return sum(int(v) for v in a.ravel())
+    return float(a.sum())
+
+
 def pred_bin(inp):
     det = _impl()[0]
-    a = np.asarray(inp['a'], dtype=float)
+    a = _typed(inp['a'], inp)
     farg, f = _factors(inp, a.ndim)
     oshape = tuple(s // k for s, k in zip(a.shape, f))
     bs = det.bindown(a, farg, 'sum')
@@ -152,6 +166,18 @@ def pred_bin(inp):
     nb = int(np.prod(f))
     if bs.shape != oshape or ba.shape != oshape:
         return False, f'binned shape {bs.shape} / {ba.shape}, expected {oshape}'
+    if a.dtype.kind in 'biu':
+        tin, tout = _exact_total(a), _exact_total(bs) if bs.dtype.kind in 'biu' else float(bs.sum())
+        if tin != tout:
+            return False, f'sum mode on a {a.dtype} array: total {tin} -> {tout} (binned dtype {bs.dtype}, values {np.unique(bs)[:6].tolist()})'
+        # every bin is the exact integer sum of its block
+        ref = a.astype(object).reshape(tuple(itertools.chain(*zip(oshape, f)))).sum(axis=tuple(range(1, 2 * a.ndim, 2)))
+        got = np.asarray(bs).astype(object)
+        if not np.array_equal(np.asarray(got == ref, dtype=bool), np.ones(oshape, dtype=bool)):
+            return False, f'sum mode on a {a.dtype} array: bins {np.asarray(bs).ravel()[:6].tolist()} expected {np.asarray(ref).ravel()[:6].tolist()}'
+        if not np.allclose(np.asarray(ba, dtype=float) * nb, np.asarray(ref, dtype=float), rtol=1e-12, atol=1e-9):
+            return False, f'avg mode on a {a.dtype} array is not the block mean'
+        return True, 'ok'
     if abs(bs.sum() - a.sum()) > 1e-12 * max(1.0, abs(a).sum()):
         return False, f'sum mode: total {bs.sum()!r} vs {a.sum()!r}'
     if not np.allclose(ba * nb, bs, rtol=1e-12, atol=1e-12):
@@ -164,37 +190,52 @@ def pred_bin(inp):
 
 def pred_tile(inp):
     det = _impl()[0]
-    y = np.asarray(inp['y'], dtype=float)
+    y = _typed(inp['y'], inp)
     farg, f = _factors(inp, y.ndim)
     shape = tuple(s * k for s, k in zip(y.shape, f))
     ts = np.asarray(det.tile(y, farg, 'sum'))
     ta = np.asarray(det.tile(y, farg, 'avg'))
     if ts.shape != shape or ta.shape != shape:
         return False, f'tiled shape {ts.shape} / {ta.shape}, expected {shape}'
-    if abs(ts.sum() - y.sum()) > 1e-12 * max(1.0, abs(y).sum()):
-        return False, f'sum scaling: total {ts.sum()!r} vs {y.sum()!r}'
+    ytot = float(_exact_total(y))
+    yabs = float(np.abs(y.astype(float)).sum())
+    if abs(float(ts.astype(float).sum()) - ytot) > 1e-12 * max(1.0, yabs):
+        return False, f'sum scaling of a {y.dtype} array: total {float(ts.astype(float).sum())!r} vs {ytot!r}'
+    if not np.array_equal(ta.astype(float), np.kron(y.astype(float), np.ones(f))):
+        return False, f'avg scaling of a {y.dtype} array does not copy each sample over its block'
     c = np.asarray(det.tile(np.full(y.shape, 2.75), farg, 'avg'))
     if not np.array_equal(c, np.full(shape, 2.75)):
         return False, 'avg scaling of a constant array is not that constant'
     # binning undoes tiling in the matching mode
     for mode, t in (('sum', ts), ('avg', ta)):
         back = det.bindown(t, farg, mode)
-        if back.shape != y.shape or not np.allclose(back, y, rtol=1e-12, atol=1e-12):
-            return False, f'bindown(tile(y, {mode}), {mode}) != y'
+        if back.shape != y.shape or not np.allclose(np.asarray(back, dtype=float), y.astype(float), rtol=1e-12, atol=1e-9):
+            return False, f'bindown(tile(y, {mode}), {mode}) != y for a {y.dtype} array'
     return True, 'ok'
 
 
 def pred_adjoint(inp):
     det = _impl()[0]
-    a = np.asarray(inp['a'], dtype=float)
+    a = _typed(inp['a'], inp)
     y = np.asarray(inp['y'], dtype=float)
     farg, f = _factors(inp, a.ndim)
+    af = a.astype(float)
     for bm, tm in (('avg', 'sum'), ('sum', 'avg')):
-        lhs = float((y * det.bindown(a, farg, bm)).sum())
-        rhs = float((np.asarray(det.tile(y, farg, tm)) * a).sum())
-        if abs(lhs - rhs) > 1e-11 * max(1.0, float(np.abs(y).sum() * np.abs(a).max())):
-            return False, f'<y, bindown(a, {bm})> = {lhs!r} but <tile(y, {tm}), a> = {rhs!r}'
+        lhs = float((y * np.asarray(det.bindown(a, farg, bm), dtype=float)).sum())
+        rhs = float((np.asarray(det.tile(y, farg, tm), dtype=float) * af).sum())
+        if abs(lhs - rhs) > 1e-11 * max(1.0, float(np.abs(y).sum() * np.abs(af).max())):
+            return False, f'{a.dtype} array: <y, bindown(a, {bm})> = {lhs!r} but <tile(y, {tm}), a> = {rhs!r}'
     return True, 'ok'
+
+
+def pred_expose_bin(inp):
+    """the integer frame returned by Detector.expose, sum-binned: the total DN is conserved"""
+    det = _impl()[0]
+    frame = _expose(inp['cfg'], inp['img'])
+    farg, f = _factors(inp, frame.ndim)
+    b = det.bindown(frame, farg, 'sum')
+    tin, tout = _exact_total(frame), _exact_total(b) if b.dtype.kind in 'biu' else float(b.sum())
+    return tin == tout, f'{frame.dtype} frame (max DN {int(frame.max())}) sum-binned by {farg}: total {tin} -> {tout}, bins {np.unique(b)[:5].tolist()}'
 
 
 PL = ('r', 'g1', 'g2', 'b')
@@ -329,7 +370,7 @@ def pred_wb_safe(inp):
 
 
 PREDS = {'dn_range': pred_dn_range, 'dn_monotone': pred_dn_monotone, 'dn_formula': pred_dn_formula, 'dn_frames': pred_dn_frames,
-         'bin': pred_bin, 'tile': pred_tile, 'bin_tile_adjoint': pred_adjoint, 'bayer_roundtrip': pred_bayer_roundtrip,
+         'bin': pred_bin, 'tile': pred_tile, 'bin_tile_adjoint': pred_adjoint, 'expose_bin': pred_expose_bin, 'bayer_roundtrip': pred_bayer_roundtrip,
          'bayer_composite': pred_bayer_composite, 'malvar_native': pred_malvar_native, 'malvar_constant': pred_malvar_constant,
          'wb_prescale': pred_wb, 'wb_safe': pred_wb_safe}
 
@@ -378,6 +419,23 @@ def _image(rng, cfg, shape):
 
 def _ints(rng, shape, lo=-9, hi=10):
     return rng.integers(lo, hi, size=shape).astype(float)
+
+
+INT_DTYPES = ['uint8', 'uint16', 'int8', 'int16', 'bool', 'uint32', 'int32']
+
+
+def _int_array(rng, shape, dtype):
+    """values near the ends of the container, so that every block of two or more samples overflows it when summed"""
+    dt = np.dtype(dtype)
+    if dt.kind == 'b':
+        a = rng.random(shape) < 0.85
+        return a
+    info = np.iinfo(dt)
+    hi = rng.integers(int(info.max * 0.8), int(info.max) + 1, size=shape, dtype=np.int64)
+    if info.min < 0:
+        lo = rng.integers(int(info.min), int(info.min * 0.8) + 1, size=shape, dtype=np.int64)
+        hi = np.where(rng.random(shape) < 0.3, lo, hi)
+    return hi.astype(dt)
 
 
 def _fl(a):
@@ -517,9 +575,40 @@ def correspondence(ctx):
                     if got.shape != model.shape or not np.allclose(got, model, rtol=1e-12, atol=1e-12):
                         ctx.disagree('tile', dict(desc, mode=mode), str(got.ravel()[:4]), str(model.ravel()[:4]))
                 ask(f'tile {mode} {len(shape)} {_il(oshape)} {_il(fl)} {_il(y)}', chk2)
+            # integer / unsigned / bool containers: the exact integer block sums (model) must come back, no wrap-around
+            for dtn in (INT_DTYPES if (rep == 0 or ctx.thorough) else INT_DTYPES[rep % len(INT_DTYPES)::len(INT_DTYPES)]):
+                ai = _int_array(rng, shape, dtn)
+                yi = _int_array(rng, oshape, dtn)
+                ddesc = dict(desc, dtype=dtn)
+
+                def chk3(row, ai=ai, ddesc=ddesc, oshape=oshape, f=f, nt=nt, dtn=dtn):
+                    model = [Fraction(t) for t in row.split()]
+                    ctx.case('bindown', dict(ddesc, mode='sum'), nontrivial=nt, tag=f'{len(oshape)}d/sum/{dtn}')
+                    try:
+                        got = det.bindown(ai, f, 'sum')
+                    except Exception as ex:
+                        ctx.disagree('bindown', dict(ddesc, mode='sum'), f'raised {type(ex).__name__}: {ex}', 'value')
+                        return
+                    g = [int(v) for v in np.asarray(got).ravel()] if got.dtype.kind in 'biu' else [float(v) for v in np.asarray(got).ravel()]
+                    if got.shape != tuple(oshape) or any(Fraction(x) != mq for x, mq in zip(g, model)):
+                        ctx.disagree('bindown', dict(ddesc, mode='sum'), f'{g[:4]} ({got.dtype})', f'{[int(q) for q in model[:4]]} (exact integer sums)')
+                ask(f'bin sum {len(shape)} {_il(shape)} {_il(fl)} {_il(ai.astype(np.int64))}', chk3)
+                _check(ctx, 'bin', {'a': ai.astype(np.int64).tolist(), 'factor': fj, 'dtype': dtn}, ddesc, nt, f'{len(shape)}d/{dtn}')
+                _check(ctx, 'tile', {'y': yi.astype(np.int64).tolist(), 'factor': fj, 'dtype': dtn}, ddesc, nt, f'{len(shape)}d/{dtn}')
+                _check(ctx, 'bin_tile_adjoint', {'a': ai.astype(np.int64).tolist(), 'y': y.tolist(), 'factor': fj, 'dtype': dtn},
+                       ddesc, nt, f'{len(shape)}d/{dtn}')
             _check(ctx, 'bin', {'a': a.tolist(), 'factor': fj}, desc, nt, f'{len(shape)}d')
             _check(ctx, 'tile', {'y': y.tolist(), 'factor': fj}, desc, nt, f'{len(shape)}d')
             _check(ctx, 'bin_tile_adjoint', {'a': a.tolist(), 'y': y.tolist(), 'factor': fj}, desc, nt, f'{len(shape)}d')
+
+    # ---------------- the integer frame of an exposure, sum-binned (saturated and mid-scale frames, 8/12/16-bit)
+    for bits in (8, 12, 16, 10):
+        for (shape, f) in (((6, 8), 2), ((6, 8), [3, 4]), ((4, 4), [1, 2]), ((16, 16), 8)):
+            cfg = {'dc': 0.0, 'bias': 0.0, 'fwc': 1e15, 'gain': 1.0, 'bits': bits, 't': 1.0, 'prnu': None, 'dcnu': None}
+            level = float(rng.choice([1e7, 2.0 ** bits * 0.9]))
+            img = np.full(shape, level) * rng.uniform(0.97, 1.0, shape)
+            _check(ctx, 'expose_bin', {'cfg': cfg, 'img': img.tolist(), 'factor': f},
+                   {'bits': bits, 'shape': list(shape), 'factor': f, 'level': level}, True, f'bits{bits}')
 
     # ---------------- Bayer
     for (m, n) in BAYER_SHAPES:
@@ -656,6 +745,15 @@ def search(ctx, hints):
             ok, detail = _run_pred(name, inp)
             if not ok:
                 return found(name, inp, detail)
+        for dtn in INT_DTYPES:
+            info = None if dtn == 'bool' else np.iinfo(np.dtype(dtn))
+            ai = np.ones(shape, dtype=np.int64) if info is None else np.full(shape, int(info.max), dtype=np.int64)
+            yi = np.ones(oshape, dtype=np.int64) if info is None else np.full(oshape, int(info.max), dtype=np.int64)
+            for name, inp in (('bin', {'a': ai.tolist(), 'factor': fj, 'dtype': dtn}), ('tile', {'y': yi.tolist(), 'factor': fj, 'dtype': dtn}),
+                              ('bin_tile_adjoint', {'a': ai.tolist(), 'y': y.tolist(), 'factor': fj, 'dtype': dtn})):
+                ok, detail = _run_pred(name, inp)
+                if not ok:
+                    return found(name, inp, detail)
     # Bayer
     for (m, n) in BAYER_SHAPES[:7]:
         for cfa in ('rggb', 'bggr'):
@@ -682,7 +780,7 @@ def replay(inp):
     if name not in PREDS:
         print('no replay routine for item', name)
         return False
-    brief = {k: v for k, v in inp.items() if k in ('cfg', 'factor', 'cfa', 'frames', 'gains', 'saturation', 'shape', 'level')}
+    brief = {k: v for k, v in inp.items() if k in ('cfg', 'factor', 'cfa', 'frames', 'gains', 'saturation', 'shape', 'level', 'dtype')}
     print(f'replaying {name}: {brief}')
     if name.startswith('dn_'):
         try:
